@@ -159,13 +159,13 @@ class Graph(object):
         self.edges = {}     # id -> list of (label, dst)
 
 
-def dump_graph(spec_dir, module, cfg, workers=1, timeout=600, env=None):
-    """BFS with -dump dot,actionlabels; returns (Graph, TLCResult)."""
+def dump_graph(spec_dir, module, cfg, workers=1, timeout=600, env=None, coverage=False):
+    """BFS with -dump dot,actionlabels; returns (Graph, TLCResult) (coverage=True: r.coverage is filled as in check())."""
     d = _scratch("dot-")
     dot = os.path.join(d, "g")
     try:
         r = run(spec_dir, module, cfg, workers=workers, timeout=timeout,
-                args=["-dump", "dot,actionlabels", dot], env=env)
+                args=["-dump", "dot,actionlabels", dot], env=env, coverage=coverage)
         g = Graph()
         with open(dot + ".dot") as f:
             txt = f.read()
